@@ -392,3 +392,51 @@ def expanded_guard_atoms(eng, atoms):
             out.append(na)
             work.append(na)
     return out
+
+
+def lowered_enumerate(eng, fi):
+    """`for i, v in enumerate(X): ... v ...`  ==  `for i in range(0, len(X)): ... X[i] ...`  (v not re-assigned in the body).  Returns (function view, CFG) over the
+    lowered body -- the original objects if the function has no such loop.  Sub-trees that do not mention v keep their identity (resolved-call tables keep working)."""
+    import copy
+    from ..cfg import CFG
+
+    def assigns(body, name):
+        return any(isinstance(x, ast.Name) and x.id == name and isinstance(x.ctx, (ast.Store, ast.Del)) for b_ in body for x in ast.walk(b_))
+
+    def tx(stmts):
+        out, changed = [], False
+        for st in stmts:
+            new = st
+            if isinstance(st, ast.For) and isinstance(st.target, ast.Tuple) and len(st.target.elts) == 2 and all(isinstance(e, ast.Name) for e in st.target.elts) \
+                    and isinstance(st.iter, ast.Call) and isinstance(st.iter.func, ast.Name) and st.iter.func.id == "enumerate" and len(st.iter.args) == 1 \
+                    and isinstance(st.iter.args[0], ast.Name) and not assigns(st.body, st.target.elts[1].id) and not assigns(st.body, st.iter.args[0].id):
+                i, v, X = st.target.elts[0], st.target.elts[1].id, st.iter.args[0]
+
+                def repl(n, v=v, X=X, i=i):
+                    if isinstance(n, ast.Name) and n.id == v and isinstance(n.ctx, ast.Load):
+                        return ast.copy_location(ast.Subscript(value=ast.Name(id=X.id, ctx=ast.Load()), slice=ast.Name(id=i.id, ctx=ast.Load()), ctx=ast.Load()), n)
+                    return None
+                new = copy.copy(st)
+                new.target = ast.copy_location(ast.Name(id=i.id, ctx=ast.Store()), st.target)
+                new.iter = ast.copy_location(ast.Call(func=ast.Name(id="range", ctx=ast.Load()),
+                                                      args=[ast.Constant(value=0), ast.Call(func=ast.Name(id="len", ctx=ast.Load()), args=[ast.Name(id=X.id, ctx=ast.Load())], keywords=[])], keywords=[]), st.iter)
+                new.body = [rebuild(b_, repl) for b_ in st.body]
+                ast.fix_missing_locations(new)
+                changed = True
+            for field in ("body", "orelse", "finalbody"):
+                sub = getattr(new, field, None)
+                if isinstance(sub, list) and sub and isinstance(sub[0], ast.stmt):
+                    nl, ch = tx(sub)
+                    if ch:
+                        if new is st:
+                            new = copy.copy(st)
+                        setattr(new, field, nl)
+                        changed = True
+            out.append(new)
+        return out, changed
+
+    body, changed = tx(fi.body())
+    if not changed:
+        return fi, eng.cfg(fi)
+    view = _FnView(fi, body)
+    return view, CFG(view)
